@@ -49,6 +49,7 @@ class TSched:
         self.outcome = "ok"
         self.log: List[tuple] = []
         self.npoints = 0
+        self.rv: Optional[Rendezvous] = None
 
     # ---- called by scenario threads
     def me(self) -> Optional[TThread]:
@@ -202,6 +203,83 @@ class CoopLock:
         self.release()
 
 
+class CoopRLock(CoopLock):
+    """Re-entrant variant (threading.RLock)."""
+
+    def __init__(self):
+        super().__init__()
+        self.count = 0
+
+    def acquire(self, blocking: bool = True, timeout: float = -1) -> bool:
+        s, th = self._sched_thread()
+        if th is not None and self.owner == th.tid:
+            self.count += 1
+            return True
+        ok = super().acquire(blocking, timeout)
+        if ok:
+            self.count = 1
+        return ok
+
+    def release(self) -> None:
+        self.count -= 1
+        if self.count <= 0:
+            self.count = 0
+            super().release()
+
+
+class Rendezvous:
+    """Meeting point of n scenario threads (a node of one call that needs a node of another call to be running at the same time).
+    A thread waiting here is DISABLED, not spinning; if the others can never arrive that is a deadlock."""
+
+    def __init__(self, n: int):
+        self.n = n
+        self.arrived = 0
+
+    @property
+    def owner(self):
+        return None if self.arrived >= self.n else -2
+
+
+def rendezvous() -> None:
+    s = SCHED
+    th = s.me() if s is not None else None
+    if th is None or getattr(s, "rv", None) is None:
+        return
+    rv = s.rv
+    rv.arrived += 1
+    while rv.arrived < rv.n:
+        th.blocked_on = rv
+        s.point("rendezvous")
+        if getattr(th, "abandoned", False):
+            raise Deadlock()
+    th.blocked_on = None
+
+
+def pause_value(v):
+    """pause(), then hand the value through: a scheduling point in the middle of the evaluation of an argument list."""
+    pause()
+    return v
+
+
+def own_all_locks() -> int:
+    """Every lock object that lives in a global of a tawazi module is replaced by a cooperative one: a real lock taken by a thread
+    that then hands the baton over would block the next thread in the OS, with the baton in its hand."""
+    import sys
+    n = 0
+    lock_t, rlock_t = type(threading.Lock()), type(threading.RLock())
+    for name, mod in list(sys.modules.items()):
+        if not (name == "tawazi" or name.startswith("tawazi.")) or mod is None:
+            continue
+        for k, v in list(vars(mod).items()):
+            if isinstance(v, lock_t):
+                setattr(mod, k, CoopLock())
+                n += 1
+            elif isinstance(v, rlock_t):
+                setattr(mod, k, CoopRLock())
+                n += 1
+    return n
+
+
 def pause() -> None:
     """Explicit scheduling point inside a describing function (a build that pauses)."""
     s = SCHED
@@ -221,5 +299,6 @@ def install() -> CoopLock:
         if not hasattr(NN, "exec_nodes_lock"):
             raise RuntimeError("dead seam: tawazi.node.node.exec_nodes_lock does not exist any more")
         NN.exec_nodes_lock = CoopLock()
+        own_all_locks()
         _installed = True
     return NN.exec_nodes_lock
